@@ -142,8 +142,8 @@ func c07Once(e *env, c *Case, o *outcome, md protoreflect.MessageDescriptor, fds
 		// an odd path text (null, NaN, true, ...) for a typed variable: the
 		// route may be refused, or the field holds what the text converts to
 		// under some proto3-JSON reading - never the competitor's value
-		for _, rd := range refReadings(vschema.NewMsg(md), fds, c.Text) {
-			if proto.Equal(got, project(rd, fds)) {
+		for _, rd := range append(refReadings(vschema.NewMsg(md), fds, c.Text), zeroPresent(md, fds)) {
+			if rd != nil && proto.Equal(got, project(rd, fds)) {
 				o.distinct = "c07|odd-path-text|" + kindClass(fds[len(fds)-1]) + "|" + c.Via
 				return true
 			}
@@ -180,6 +180,9 @@ func c07Once(e *env, c *Case, o *outcome, md protoreflect.MessageDescriptor, fds
 		}
 		if c.Extra == "zero-segment-tail" {
 			by += ":zero-segment-tail"
+		}
+		if c.Extra == "oneof-sibling-competitor" {
+			by += ":oneof-sibling-competitor"
 		}
 		if ct := c.Req.Header["Content-Type"]; len(ct) > 0 && strings.HasPrefix(by, "body") {
 			mt, _, _ := strings.Cut(ct[0], ";")
@@ -248,6 +251,112 @@ func keyOf(fds []protoreflect.FieldDescriptor, json bool) string {
 		}
 	}
 	return strings.Join(parts, ".")
+}
+
+// zeroPresent: the message in which the field is explicitly SET to its
+// default value (differs from "unset" for oneof members): what a conversion
+// of null / 0 / false may produce. nil for message kinds.
+func zeroPresent(md protoreflect.MessageDescriptor, fds []protoreflect.FieldDescriptor) proto.Message {
+	fd := fds[len(fds)-1]
+	if fd.Message() != nil || fd.IsList() || fd.IsMap() {
+		return nil
+	}
+	m := vschema.NewMsg(md)
+	cur := m.ProtoReflect()
+	for _, f := range fds[:len(fds)-1] {
+		cur = cur.Mutable(f).Message()
+	}
+	cur.Set(fd, fd.Default())
+	return m
+}
+
+// oneofSiblings lists leaf paths that are (or lie under) OTHER members of a
+// real oneof the variable's field path goes through.
+func oneofSiblings(p *plan, v pathVar) [][]protoreflect.FieldDescriptor {
+	var out [][]protoreflect.FieldDescriptor
+	for i, fd := range v.fds {
+		od := fd.ContainingOneof()
+		if od == nil || od.IsSynthetic() {
+			continue
+		}
+		ms := od.Fields()
+		for j := 0; j < ms.Len() && len(out) < 6; j++ {
+			m := ms.Get(j)
+			if m == fd || isNullEnum(m) {
+				continue
+			}
+			path := append(append([]protoreflect.FieldDescriptor(nil), v.fds[:i]...), m)
+			switch {
+			case m.Message() == nil && m.Kind() != protoreflect.BytesKind:
+				out = append(out, path)
+			case isPlainMsg(m):
+				fs := m.Message().Fields()
+				for k := 0; k < fs.Len(); k++ {
+					if f := fs.Get(k); f.Kind() == protoreflect.StringKind && !f.IsList() {
+						out = append(out, append(path, f))
+						break
+					}
+				}
+			}
+		}
+	}
+	return out
+}
+
+// oneofCase: the variable is (under) a member of a oneof; the query string
+// and / or the body name a SIBLING member. The path capture must still win
+// (setting it switches the oneof).
+func (g *gen) oneofCase(p *plan, v pathVar, sib []protoreflect.FieldDescriptor, idx int, qv, bv string) (*Case, error) {
+	base := vschema.NewMsg(p.in)
+	texts, err := p.fit(g.rng, base, idx)
+	if err != nil {
+		return nil, err
+	}
+	leafFD := sib[len(sib)-1]
+	tmp := vschema.NewMsg(leafFD.ContainingMessage()).ProtoReflect()
+	setLeaf(tmp, leafFD, idx+1, g.rng)
+	ts, err := canonTexts(tmp, leafFD, false)
+	if err != nil || len(ts) != 1 {
+		return nil, nil
+	}
+	st := ts[0]
+	if leafFD.Kind() == protoreflect.StringKind {
+		st = "sibling-member"
+	}
+	sibPath := protoPath(sib)
+	c := &Case{Prop: "C07", Kind: "c07", Rule: p.rule, Field: v.field, Text: texts[v.field], Compete: map[string]string{}, Extra: "oneof-sibling-competitor"}
+	q := reqSpec{Verb: reqVerb(p.rule), Path: p.instantiate(texts)}
+	if qv != "none" {
+		q.RawQuery = encodeQuery([]kv{{keyOf(sib, qv == "json-name"), st}})
+	}
+	if bv != "none" {
+		inBody := p.rule.Body == "*" || (p.body != nil && strings.HasPrefix(sibPath, p.bodyPath()+"."))
+		if !inBody {
+			return nil, nil
+		}
+		full, err := onlyField(p.in, sib, st)
+		if err != nil {
+			return nil, nil
+		}
+		bodyMsg := full
+		if p.body != nil {
+			val, _ := getPath(full.ProtoReflect(), p.body)
+			bodyMsg = val.Message().Interface()
+		}
+		enc := bodyEnc{ctype: "application/json", jsonFl: g.n % 4}
+		if bv == "protobuf" {
+			enc = bodyEnc{ctype: []string{"application/protobuf", "application/octet-stream"}[g.n%2]}
+		}
+		if q.Body, err = enc.encode(bodyMsg); err != nil {
+			return nil, err
+		}
+		q.Header = enc.header()
+	}
+	g.n++
+	c.Req = q
+	c.Via = "oneof-sibling=" + sibPath + ",query=" + qv + ",body=" + bv
+	c.Class = p.rule.bodyShape() + ":" + c.Via
+	return c, nil
 }
 
 // starVar is the variable with a one-segment wildcard pattern: competing
@@ -357,8 +466,8 @@ func (g *gen) c07Case(p *plan, v pathVar, idx int, qv, bv string, ex c07Extra) (
 				if ex.oddText != "" {
 					// must not coincide with any reading of the odd text
 					clash := false
-					for _, rd := range refReadings(vschema.NewMsg(p.in), v.fds, ex.oddText) {
-						clash = clash || proto.Equal(project(rd, v.fds), a)
+					for _, rd := range append(refReadings(vschema.NewMsg(p.in), v.fds, ex.oddText), zeroPresent(p.in, v.fds)) {
+						clash = clash || (rd != nil && proto.Equal(project(rd, v.fds), a))
 					}
 					if clash {
 						continue
@@ -695,7 +804,7 @@ func (g *gen) c07Case(p *plan, v pathVar, idx int, qv, bv string, ex c07Extra) (
 	return c, nil
 }
 
-const ruleC07 = "every rule of the C03 catalogue with at least one path variable (vf.Req, ComplexRequest and the real larking.testpb annotations incl. Files.UploadDownload; top-level, nested and doubly nested fields; typed, enum, oneof and well-known-type variables; body '*', body <field>, no body). For every variable and several captures: competing, different values for the same field through the query string (proto name, JSON name, the key twice, before / after another key) and / or the body (JSON, protobuf, gzip JSON; body '*' or a body field that contains the variable), all combinations. In addition, for every variable on a nested field: 1-3 query parameters on same-typed sibling sub-messages (vf.Req sub / osub, ComplexRequest nested / oneof_nested; the sibling's field of the same name first) before / after the competing key, x query x body competitors; and for every variable: a repeated query field of 10, 63, 64, 65, 200, 1000 elements next to the competitors. These requests are served 4 times each (query parameters are applied in map order). Oracle: the handler's value of the field equals the protojson value of the path capture, and - for the cases with non-competing parameters on rules without body '*' - the whole message equals the capture(s) plus every parameter the client sent; a request rejected with an error status is allowed. Streaming HTTP rules (HttpBody uploads on client-streaming and bidi methods incl. the real Files.LargeUploadDownload, server-streaming downloads) run the query matrix with every way the handler can obtain the first message (stream.Recv looping to EOF, larking.AsHTTPBodyReader; replies through stream.Send and larking.AsHTTPBodyWriter). The body competitor also comes as application/x-www-form-urlencoded (with / without charset), multipart/form-data, text/plain and application/json; charset=utf-8: whatever the tree accepts must not override the path, a refusal is no claim. Also 13, 14, 20 and 40 URL parameters on distinct keys (one naming the bound field), each request served 20 times. The catalogue includes constant variables ({f=lit}, {f=lit/lit}, typed {f=true}, {e=RED}, the real Messaging.Action {text=action}) and variables of every scalar kind and bytes (top-level and nested) on rules that map a body; bytes captures are spelled std / url-safe, padded / unpadded; bodies carry the competing value or do not name the field at all, with fillers of 0-6000 bytes. A quarter of the requests send the path in an over-escaped spelling (URL.RawPath set): the capture is the decoded path text. Templates ending in ** (bare or variable) after other variables are also requested with a zero-segment tail (with / without trailing slash): refused or bound as usual. Typed variables also capture odd texts (null, NULL, Null, nil, undefined, NaN, true, false, 0, -0, none, Infinity) next to query / body competitors: the route may be refused or the field holds a proto3-JSON reading of the text, never the competitor. Control frames (ping, unsolicited pong) are interleaved before the first and between data frames. WebSocket transport (real loopback listener through larking.NewServer): websocket-kind bindings on bidi methods (vf.Req top-level / nested / typed / bytes / multi-segment variables, body '*' and body field; the real testpb ChatRoom.Chat) with the competing value in the query string, in the first frame and / or in later frames (1-3 frames, each acknowledged by the handler): the first message the handler receives must carry the capture. distinct = (rule, variable, query variant, body variant, sibling / list-size variant | websocket frame variant) of dispatched requests that kept the capture"
+const ruleC07 = "every rule of the C03 catalogue with at least one path variable (vf.Req, ComplexRequest and the real larking.testpb annotations incl. Files.UploadDownload; top-level, nested and doubly nested fields; typed, enum, oneof and well-known-type variables; body '*', body <field>, no body). For every variable and several captures: competing, different values for the same field through the query string (proto name, JSON name, the key twice, before / after another key) and / or the body (JSON, protobuf, gzip JSON; body '*' or a body field that contains the variable), all combinations. In addition, for every variable on a nested field: 1-3 query parameters on same-typed sibling sub-messages (vf.Req sub / osub, ComplexRequest nested / oneof_nested; the sibling's field of the same name first) before / after the competing key, x query x body competitors; and for every variable: a repeated query field of 10, 63, 64, 65, 200, 1000 elements next to the competitors. These requests are served 4 times each (query parameters are applied in map order). Oracle: the handler's value of the field equals the protojson value of the path capture, and - for the cases with non-competing parameters on rules without body '*' - the whole message equals the capture(s) plus every parameter the client sent; a request rejected with an error status is allowed. Streaming HTTP rules (HttpBody uploads on client-streaming and bidi methods incl. the real Files.LargeUploadDownload, server-streaming downloads) run the query matrix with every way the handler can obtain the first message (stream.Recv looping to EOF, larking.AsHTTPBodyReader; replies through stream.Send and larking.AsHTTPBodyWriter). The body competitor also comes as application/x-www-form-urlencoded (with / without charset), multipart/form-data, text/plain and application/json; charset=utf-8: whatever the tree accepts must not override the path, a refusal is no claim. Also 13, 14, 20 and 40 URL parameters on distinct keys (one naming the bound field), each request served 20 times. The catalogue includes constant variables ({f=lit}, {f=lit/lit}, typed {f=true}, {e=RED}, the real Messaging.Action {text=action}) and variables of every scalar kind and bytes (top-level and nested) on rules that map a body; bytes captures are spelled std / url-safe, padded / unpadded; bodies carry the competing value or do not name the field at all, with fillers of 0-6000 bytes. A quarter of the requests send the path in an over-escaped spelling (URL.RawPath set): the capture is the decoded path text. Variables bound to (fields under) members of a oneof get competitors naming SIBLING members in query and body. Templates ending in ** (bare or variable) after other variables are also requested with a zero-segment tail (with / without trailing slash): refused or bound as usual. Typed variables also capture odd texts (null, NULL, Null, nil, undefined, NaN, true, false, 0, -0, none, Infinity) next to query / body competitors: the route may be refused or the field holds a proto3-JSON reading of the text, never the competitor. Control frames (ping, unsolicited pong) are interleaved before the first and between data frames. WebSocket transport (real loopback listener through larking.NewServer): websocket-kind bindings on bidi methods (vf.Req top-level / nested / typed / bytes / multi-segment variables, body '*' and body field; the real testpb ChatRoom.Chat) with the competing value in the query string, in the first frame and / or in later frames (1-3 frames, each acknowledged by the handler): the first message the handler receives must carry the capture. distinct = (rule, variable, query variant, body variant, sibling / list-size variant | websocket frame variant) of dispatched requests that kept the capture"
 
 // RunC07 is the path-bound-fields-are-authoritative check.
 func RunC07(r *mon.Run) {
@@ -813,6 +922,17 @@ func RunC07(r *mon.Run) {
 								}
 							}
 						}
+					}
+				}
+			}
+			// the variable is (under) a oneof member: competitors for SIBLING members
+			for si, sib := range oneofSiblings(p, v) {
+				for _, qv := range []string{"none", "proto-name", "json-name"} {
+					for _, bv := range []string{"none", "json", "protobuf"} {
+						if qv == "none" && bv == "none" {
+							continue
+						}
+						do(g.oneofCase(p, v, sib, 2+3*si, qv, bv))
 					}
 				}
 			}
